@@ -5,6 +5,8 @@ commutative, associative, monotone operator applied to the receiver's OWN contai
 minimum with an `inf` default), that the recording-side twin uses the same minimum, and that
 analyze_results folds every result of the suite into a fresh trace with nothing but merge.
 Value-level monotonicity of the fitness formulas (e.g. the >=2-executions rule) is not decided.
+Further clauses (added later): The Chromosome comparison / sorting helpers are checked to be stateless between
+calls.
 """
 
 from __future__ import annotations
